@@ -186,7 +186,11 @@ def ffi_cycle_scenarios():
         cfgs.append(("phonetic single", {"layout": "avro_phonetic", "database": db, "opts": {"phonetic_suggestion": False, "ansi": ansi}}))
         cfgs.append(("fixed single", {"layout": db + "/Probhat.json", "database": db, "opts": {"fixed_suggestion": False, "ansi": ansi}}))
     texts = ["ami", "`", "``", "a`", ":)", "kotha.", "\"k\""]
-    tails = [[], [{"backspace": False}] * 7, [{"backspace": True}], [{"commit": 0}], [{"finish": 1}, {"backspace": False}]]
+    # re-configuration in the middle of a life cycle: other options, the other method, the same data directory under another spelling
+    alt = {"layout": "avro_phonetic", "database": db + "/../data", "opts": {"phonetic_suggestion": True}}
+    alt_fixed = {"layout": db + "/Probhat.json", "database": db, "opts": {"fixed_suggestion": True}}
+    tails = [[], [{"backspace": False}] * 7, [{"backspace": True}], [{"commit": 0}], [{"finish": 1}, {"backspace": False}],
+             [{"finish": 1}, {"update": alt}, {"key": keys["a"], "sel": 0}, {"finish": 1}, {"update": alt_fixed}, {"key": keys["k"], "sel": 0}]]
     scs, meta = [], []
     for label, cfg in cfgs:
         for t in texts:
